@@ -205,6 +205,8 @@ def structure(draw, lays, kinds=('obs', 'list', 'array', 'corr'), small=False, f
         shape = draw(st.sampled_from(shapes))
         node['shape'] = shape
         node['items'] = [draw(obs_data(lay)) for _ in range(int(np.prod(shape, dtype=int)))]
+        # same logical array, other memory layout (a transposed view of a C-ordered array)
+        node['memorder'] = draw(st.sampled_from(['C', 'C', 'F'])) if len(shape) >= 2 else 'C'
     else:
         N = draw(st.sampled_from([1, 1, 1, 2] if small else [1, 1, 2, 3]))
         T = draw(st.integers(1, {1: 6, 2: 3, 3: 2}[N]))
@@ -665,6 +667,12 @@ def build_node(ctx, node):
         for i, p in enumerate(pairs):
             arr[i] = p[0]
         arr = arr.reshape(tuple(node['shape']))
+        if node.get('memorder') == 'F':
+            tmp = np.empty(tuple(node['shape'])[::-1], dtype=object)
+            for idx in np.ndindex(*tuple(node['shape'])):
+                tmp[idx[::-1]] = arr[idx]
+            arr = tmp.T
+            ctx.labels.add('array:F-ordered')
         ctx.labels.add('array:%dd' % len(node['shape']))
         note_layout(ctx, lay, len(pairs))
         return arr, ('array', tuple(node['shape']), [('obs', p[0], p[1]) for p in pairs])
